@@ -74,10 +74,32 @@ class InfRoundTrip(_RoundTrip):
     target = "geoh5py/shared/utils.py::inf2str"
     reader = "geoh5py/ui_json/utils.py::str2inf"
 
+    def cases(self):
+        return VALUE_CASES + ["+inf-numpy", "-inf-numpy"]
+
+    def setup(self, ctx):
+        if ctx.case.endswith("-numpy"):
+            import numpy as np
+
+            v = np.float64("inf") if ctx.case.startswith("+") else np.float64("-inf")  # what np.log(0.0), x.min() etc. hand back
+            ctx.env["v"] = v
+            return [v], {}
+        return super().setup(ctx)
+
     def extra_pre(self, ctx, v):
         # a string that itself reads as an infinity is the documented exception
         if isinstance(v, SV) and v.k == "str":
             ctx.assume(z3.And(v.e != to_z3("inf"), v.e != to_z3("-inf")))
+
+    def post(self, ctx, result):
+        if "inf" in ctx.case:
+            # JSON has no literal for infinities: whatever float type carries one, it is written as text
+            ctx.oblige("an-infinity-is-written-as-text", bool(isinstance(result, str) and result == ("inf" if ctx.case.startswith("+") else "-inf")),
+                       note=f"inf2str({ctx.env['v']!r} of type {type(ctx.env['v']).__name__}) returned {result!r}")
+            back = ctx.I.call_function(__import__("pyvc.reflect", fromlist=["x"]).resolve(self.reader)[0], [result], {})
+            ctx.oblige("reading-back-what-was-written-gives-the-value", bool(isinstance(back, float) and back == float(ctx.env["v"])))
+            return
+        super().post(ctx, result)
 
 
 class NoneRoundTrip(_RoundTrip):
@@ -288,6 +310,8 @@ class InputFileRoundTrip(Contract):
                 ui["i"] = templates.integer_parameter(value=7)
                 ui["f_pos"] = templates.float_parameter(value=float("inf"))
                 ui["f_neg"] = templates.float_parameter(value=float("-inf"))
+                ui["f_pos_np"] = templates.float_parameter(value=np.float64("inf"))
+                ui["f_neg_np"] = templates.float_parameter(value=np.log(np.float64(0.0)))
                 ui["f"] = templates.float_parameter(value=-2.5)
                 ui["s"] = templates.string_parameter(value="hello é")
                 ui["c"] = templates.choice_string_parameter(choice_list=["a", "b"], value="b")
@@ -302,7 +326,10 @@ class InputFileRoundTrip(Contract):
                     _ = ifile.data
                 before_enabled = {k: v.get("enabled", True) for k, v in ifile.ui_json.items() if isinstance(v, dict)}
                 before_vals = {k: (v.get("value") if v.get("isValue", True) else v.get("property")) for k, v in ifile.ui_json.items() if isinstance(v, dict)}
-                ifile.write_ui_json(name=case.get("name", "t.ui.json"), path=d)
+                try:
+                    ifile.write_ui_json(name=case.get("name", "t.ui.json"), path=d)
+                except Exception as exc:
+                    return f"writing the form values failed: {type(exc).__name__}: {exc} ({case})"
             try:
                 back = InputFile.read_ui_json(os.path.join(d, case.get("name", "t.ui.json")), validate=False)
             except Exception as exc:
